@@ -31,6 +31,22 @@ PROPS["C17"] = {
     "explanation": "nested-loop invariants over vsum/vsumv/cntv/gsum/gcnt spec functions; ghost lemma for foreign-group gaps",
 }
 
+PROPS["C16"] = {
+    "modules": ["contracts.ops_zonal"],
+    "contracts": ["hdc/algo/ops/zonal.py::do_mean", "hdc/algo/ops/zonal.py::do_mean@f64"],
+    "standin": True,
+    "level": "proof",
+    "trusted": ["z3 5.1 / cvc5 1.0.3", "numpy.zeros / ndarray.astype element-wise (assumed)",
+                "a-priori error bound of float64 accumulation, (N-1)*2^-53*sum|x|, is below one ulp of the requested output dtype for zones up to 2^28 pixels (stated error-analysis lemma, not proved)",
+                "invariance of a finite sum under rearrangement of its index set (mathematical lemma, the postcondition is a sum over an index set in row-major order)",
+                "accessor plumbing (NaN->nodata, coords, dask map_blocks): bounded stand-in only"],
+    "not_proved": ["float64 rounding of the running sum (assumption above)", "accessor / dask paths (bounded)"],
+    "assumptions": ["floats are exact reals (model R) except for the accumulator obligations: a counter kept in dtype T is exact only below 2^24 (float32) / 2^53 (float64); a running sum must be kept in float64"],
+    "level_text": "do_mean: for all rasters, zone maps and time steps the returned mean/count equal the row-major sum/count spec functions written from the statement (NaN and 0 for empty zones, nothing from zone-nodata pixels), every subscript is in bounds, and the accumulator-width obligations (counter exactness, float64 running sum) are discharged; 69 obligations per output dtype by z3 over a four-loop nest",
+    "level_note": "trusted: z3/cvc5; floats-as-reals (model R) with explicit accumulator obligations; float64 summation error bound assumed; accessor/dask only bounded; Numba faithful (C13)",
+    "explanation": "4 nested loop invariants over row/zone sum+count spec functions; accumulator typing obligations",
+}
+
 ALL = ["C%02d" % i for i in range(1, 21)]
 NOT_APPLICABLE = {
     "C13": "statement about Numba's type inference/lowering and the ctypes binding of SciPy kernels (the translator), not about functions of /repo: no contract on hdc-algo source can establish or refute it; it is the stated assumption of every proof here",
